@@ -1471,7 +1471,57 @@ def unroll_dispatch_tables(tree: ast.Module) -> List[str]:
                     visit(st, factories, caller)
                 i += 1
 
+    def try_unroll_plain(loop: ast.For, factories: Dict[str, FuncDef], caller: Optional[FuncDef]) -> Optional[ast.stmt]:
+        """`for look_up in LOOKUPS: key = look_up(p); if key is not None: break` `else: <nobody answered>` over a literal tuple of functions that nothing else uses: the
+        calls one after the other, each followed by its test (a `break` leaves the whole block)"""
+        T = loop.iter.id  # type: ignore
+        us = uses.get(T, [])
+        stores = [u for u in us if isinstance(u.ctx, ast.Store)]
+        loads = [u for u in us if isinstance(u.ctx, ast.Load)]
+        if len(stores) != 1 or any(not (isinstance(parents.get(id(u)), ast.For) and parents[id(u)].iter is u) for u in loads):  # type: ignore
+            return None
+        asg = parents.get(id(stores[0]))
+        if not isinstance(asg, (ast.Assign, ast.AnnAssign)) or not isinstance(asg.value, (ast.List, ast.Tuple)):
+            return None
+        rows = asg.value.elts
+        if not rows or len(rows) > 8 or not all(isinstance(r, (ast.Name, ast.Attribute)) for r in rows):
+            return None
+        nm = loop.target.id  # type: ignore
+
+        def scan(stmts: List[ast.stmt]) -> bool:
+            for x in stmts:
+                if isinstance(x, (ast.Continue, ast.For, ast.While, ast.AsyncFor, ast.FunctionDef, ast.Try, ast.With)):
+                    return False
+                if isinstance(x, ast.If) and not (scan(x.body) and scan(x.orelse)):
+                    return False
+            return True
+        if not scan(loop.body) or not any(isinstance(x, ast.Break) for b_ in loop.body for x in ast.walk(b_)):
+            return None
+        for u in uses.get(nm, []):
+            if not any(u is x for x in ast.walk(loop)):
+                return None
+
+        class B(ast.NodeTransformer):
+            def visit_Break(self, node: ast.Break) -> ast.AST:
+                return ast.copy_location(InlineJump(), node)
+        out: List[ast.stmt] = []
+        for r in rows:
+            sub = _Subst({nm: r})
+            for s_ in loop.body:
+                out.append(B().visit(sub.visit(copy.deepcopy(s_))))
+        out += loop.orelse
+        marker = ast.Call(func=ast.Name(id="__inline__", ctx=ast.Load()), args=[ast.Constant(value=f"<dispatch {T}>")], keywords=[])
+        blk = InlineBlock(items=[ast.withitem(context_expr=marker, optional_vars=None)], body=out, type_comment=None)
+        blk.helper = f"<dispatch {T}>"
+        ast.copy_location(blk, loop)
+        ast.fix_missing_locations(blk)
+        log.append(f"table {T}: the loop over its {len(rows)} functions unrolled")
+        unrolled.append((T, asg))
+        return blk
+
     def try_unroll(loop: ast.For, factories: Dict[str, FuncDef], caller: Optional[FuncDef]) -> Optional[ast.stmt]:
+        if isinstance(loop.iter, ast.Name) and isinstance(loop.target, ast.Name):
+            return try_unroll_plain(loop, factories, caller)
         if not (isinstance(loop.iter, ast.Name) and isinstance(loop.target, (ast.Tuple, ast.List)) and all(isinstance(t, ast.Name) for t in loop.target.elts)):
             return None
         T = loop.iter.id
